@@ -7,7 +7,7 @@ From Coq Require Import List ZArith NArith Bool.
 Import ListNotations.
 Open Scope Z_scope.
 Require Import MW.Ledger.Model MW.Ledger.Spec MW.Ledger.Run MW.Ledger.WF.
-Require Import MW.Ledger.Proofs MW.Ledger.Proofs2 MW.Ledger.Proofs3.
+Require Import MW.Ledger.Proofs MW.Ledger.Proofs2 MW.Ledger.Proofs3 MW.Ledger.Proofs4 MW.Ledger.Proofs5.
 
 (* The code as first found asked ExistCreditFromTx through a separate read transaction, i.e.
    against the committed store, while the reorg's write transaction was open ([a1fix] = false).
@@ -90,4 +90,59 @@ Print Assumptions C01_process_reorg.
    (here: its own id) would be "connected" on top of itself *)
 Example C01_genesis_announcement_excluded :
   process p0 true (fun _ => None) [g0] (init_state 0) g0 = Ok {| credits := []; synced := [(0, 0%N); (0, 0%N)] |}.
+Proof. vm_compute. reflexivity. Qed.
+
+(* T4 = C01: in every well-formed history, once the announcement of the node's current tip has been
+   processed, every ready wallet's report (synced height, total, spendable / withdrawable sums and the
+   list of unspent rows) is exactly what the node's best chain pays to the wallet's addresses and has
+   not spent — whatever happened before: extensions, forks, reorganisations of any depth, skipped,
+   stale, repeated or failed announcements.  [wf_history] (Ledger/WF.v): the node's chain is well
+   formed after every event, addresses are issued before the chain events, a block id names one
+   block, only blocks that were attached at some time are announced. *)
+Theorem C01_ledger_refines_chain : forall p g h b,
+  wf_history p true g (h ++ [EvProcess b]) ->
+  last (s_node (run p true g h)) g = b ->
+  let s := run p true g (h ++ [EvProcess b]) in
+  forall w, model_report (s_wallet s) w = spec_report p (own_of (s_own s)) (s_node s) w.
+Proof. exact history_theorem. Qed.
+Print Assumptions C01_ledger_refines_chain.
+
+(* non-vacuity: a history with two wallets, a tip announced without its parent, a 2-deep
+   reorganisation (3 blocks connected in one commit, one of them spending a coin created by an
+   earlier one), then a stale announcement (rolls back), a failing one, and the tip again *)
+Definition blk2b : block := {| b_id := 12; b_prev := 1; b_height := 2;
+  b_txs := [ {| t_id := 12; t_cb := true; t_ins := []; t_outs := [ {| o_sh := 9; o_val := 7; o_class := CStd |} ] |};
+             {| t_id := 13; t_cb := false; t_ins := [(1, 0)%N];
+                t_outs := [ {| o_sh := 1; o_val := 3; o_class := CStd |}; {| o_sh := 7; o_val := 2; o_class := CStd |} ] |} ] |}.
+Definition blk3b : block := {| b_id := 13; b_prev := 12; b_height := 3;
+  b_txs := [ {| t_id := 14; t_cb := true; t_ins := []; t_outs := [] |} ] |}.
+Definition blk4b : block := {| b_id := 14; b_prev := 13; b_height := 4;
+  b_txs := [ {| t_id := 15; t_cb := true; t_ins := []; t_outs := [] |};
+             {| t_id := 16; t_cb := false; t_ins := [(13, 0)%N];
+                t_outs := [ {| o_sh := 9; o_val := 2; o_class := CStaking 1 |}; {| o_sh := 1; o_val := 1; o_class := CStd |} ] |} ] |}.
+Definition hist1a : list event :=
+  [EvOwner 1 1; EvOwner 9 2; EvAttach blk1; EvProcess blk1; EvAttach blk2; EvAttach blk3; EvProcess blk3; EvQuery 1;
+   EvDetach; EvDetach; EvAttach blk2b; EvAttach blk3b; EvAttach blk4b].
+Definition hist1 : list event := hist1a ++ [EvProcess blk4b].
+Definition hist2a : list event := hist1 ++ [EvQuery 2; EvProcess blk3b; EvProcess blk2].
+Definition hist2 : list event := hist2a ++ [EvProcess blk4b].
+
+Example C01_history_wf_1 : wf_history p0 true g0 hist1 /\ last (s_node (run p0 true g0 hist1a)) g0 = blk4b.
+Proof. split; [apply wf_history_b_sound|]; vm_compute; reflexivity. Qed.
+
+Example C01_history_wf_2 : wf_history p0 true g0 hist2 /\ last (s_node (run p0 true g0 hist2a)) g0 = blk4b.
+Proof. split; [apply wf_history_b_sound|]; vm_compute; reflexivity. Qed.
+
+(* the last event of hist1 is a 2-deep reorganisation of the wallet's ledger: heights 2 and 3 are replaced *)
+Example C01_history_reorg_depth :
+  synced (s_wallet (run p0 true g0 hist1a)) = [(3, 3%N); (2, 2%N); (1, 1%N); (0, 0%N)] /\
+  synced (s_wallet (run p0 true g0 hist1)) = [(4, 14%N); (3, 13%N); (2, 12%N); (1, 1%N); (0, 0%N)] /\
+  r_total (model_report (s_wallet (run p0 true g0 hist1)) 1%N) = 1 /\
+  r_total (model_report (s_wallet (run p0 true g0 hist1)) 2%N) = 9.
+Proof. vm_compute. repeat split; reflexivity. Qed.
+
+(* in hist2 the stale announcement rolls the ledger back, the announcement of a block that is no
+   longer on the node fails and changes nothing, the tip is then connected again *)
+Example C01_history_stale_and_failed :
+  map (fun k => fst (tip (s_wallet (run p0 true g0 (firstn k hist2))))) [14; 16; 17; 18]%nat = [4; 3; 3; 4].
 Proof. vm_compute. reflexivity. Qed.
